@@ -5,6 +5,7 @@ mod hist;
 mod inst;
 mod obs;
 mod props;
+mod requests;
 mod sign;
 mod util;
 mod world;
@@ -34,6 +35,7 @@ fn other_check(id: &str, tier: &str, seed: u64) -> Option<i32> {
         "C14" => Some(props::c14::run(tier, seed)),
         "C15" => Some(props::c15::run(tier, seed)),
         "C04" => Some(props::c04::run(tier, seed)),
+        "C09" => Some(props::c09::run(tier, seed)),
         _ => None,
     }
 }
@@ -99,7 +101,9 @@ fn main() {
             let id = args[2].as_str();
             let tier = args[3].as_str();
             let a = WorkerArgs { shard: args[4].parse().unwrap(), nshards: args[5].parse().unwrap(), budget_s: args[6].parse().unwrap(), seed: args[7].parse().unwrap(), validate_n: args[8].parse().unwrap() };
-            if id == "C04" {
+            if id == "C09" {
+                props::c09::worker_main(tier, a.shard, a.nshards, a.seed, &args);
+            } else if id == "C04" {
                 props::c04::worker_main(tier, a.shard, a.nshards, a.budget_s);
             } else if let Some((sc, or)) = hist_scenarios(id, tier) {
                 let group = args.iter().find_map(|x| x.strip_prefix("group=")).unwrap_or("").to_string();
